@@ -79,7 +79,7 @@ impl Op {
             "remove" | "swap_remove" => &["v", "i"],
             "resize" => &["v", "n", "x"],
             "extend" | "from_iter" | "collect_in" => &["v", "xs", "hint"],
-            "extend_from_slice" | "extend_copy" | "vmacro_list" => &["v", "xs"],
+            "extend_from_slice" | "extend_copy" | "extend_refs" | "vmacro_list" => &["v", "xs"],
             "extend_slices" => &["v", "xss"],
             "append" | "clone" => &["v", "w"],
             "split_off" => &["v", "i", "w"],
@@ -439,7 +439,7 @@ pub fn gen_op(r: &mut Rng, prof: Profile, kind: char, view: &GenView) -> Op {
             ("into_iter", 3), ("into_iter_nth", 3), ("into_bump_slice", 1), ("into_boxed", 1), ("drop", 1), ("raw", 1),
         ],
         Profile::Copy => &[
-            ("push", 12), ("extend_copy", 14), ("extend_slices", 12), ("extend_from_slice", 4), ("pop", 3), ("insert", 4), ("remove", 3),
+            ("push", 12), ("extend_copy", 14), ("extend_refs", 12), ("extend_slices", 12), ("extend_from_slice", 4), ("pop", 3), ("insert", 4), ("remove", 3),
             ("truncate", 3), ("drain", 4), ("splice", 3), ("retain", 3), ("dedup", 2), ("reserve", 3), ("shrink", 2), ("clone", 3),
             ("append", 3), ("split_off", 2), ("resize", 3), ("into_iter", 1), ("raw", 2), ("iowrite", 3), ("drop", 1), ("swap_remove", 2),
         ],
@@ -471,7 +471,7 @@ pub fn gen_op(r: &mut Rng, prof: Profile, kind: char, view: &GenView) -> Op {
             op.xs = vals(r, n);
             op.hint = hint(r, n);
         }
-        "extend_from_slice" | "extend_copy" => {
+        "extend_from_slice" | "extend_copy" | "extend_refs" => {
             let n = r.below(8) as usize;
             op.xs = vals(r, n);
         }
